@@ -14,7 +14,7 @@ statements, loops that thread the changed locals, procedures with out-parameters
                dict displays of class names, `<class value>.get_paramlist_from_schema(schema, definitions)`
                (static-method dispatch along the generated MRO table), calls with keyword arguments of translated
                functions, parameters whose default is a factory under @default_factories (typedpy.commons);
-  statements   `x += e` / `x.remove(e)` on a local list, a `for` whose body binds a local that is read after the loop
+  statements   `x += e` / `x.remove(e)` on a local list (`if c: x += e` is read as `x += (e if c else [])`), a `for` whose body binds a local that is read after the loop
                (started as the unbound marker), a `for` that returns from its body and binds loop-local names.
 The `definitions` parameter of every function is only ever passed through (checked: using it as a value is refused),
 so it is dropped; recursion through convert_to_field_code is the context parameter [rec] and explicit fuel.
@@ -372,6 +372,14 @@ class TrC(S.TrH):
                 raise Unsupported("assignment to %s" % tg.id)
             b, a = self.val(s.value)
             return self.seq(b, self.bind_local(tg.id, a, self.fresh_value(s.value), nxt))
+        if isinstance(s, ast.If) and not s.orelse and len(s.body) == 1 and isinstance(s.body[0], ast.AugAssign) \
+                and isinstance(s.body[0].op, ast.Add) and self.mutable(s.body[0].target):
+            # `if c: x += e` on a local list is `x += (e if c else [])` (extending by nothing changes nothing):
+            # one reading for both spellings
+            a = s.body[0]
+            both = ast.AugAssign(target=a.target, op=a.op,
+                                 value=ast.IfExp(test=s.test, body=a.value, orelse=ast.List(elts=[], ctx=ast.Load())))
+            return self.block([ast.copy_location(both, s)] + rest, k)
         if isinstance(s, ast.AugAssign):
             if not (isinstance(s.target, ast.Name) and isinstance(s.op, ast.Add) and self.mutable(s.target)):
                 raise Unsupported("augmented assignment other than `<local list> += e`")
